@@ -81,7 +81,7 @@ func init() {
 			}
 			return []JobDef{
 				loaderJob("eligible", "HarnessC26Eligible", p("minlen", 5, "maxlen", maxlen), fmt.Sprintf("one file whose name is 5..%d arbitrary bytes (no '/' or NUL) holding a valid program; LoadAllPrograms", maxlen), gen),
-				loaderJob("history", "HarnessC26History", p("steps", steps), fmt.Sprintf("every history of %d edits over {a.mtail: valid v1 / valid v2 / broken, b.mtail: valid, remove a, remove b, add .h.mtail, add x.txt, mkdir d.mtail}, each followed by LoadAllPrograms", steps), gen),
+				loaderJob("history", "HarnessC26History", p("steps", steps), fmt.Sprintf("every history of %d edits over {a.mtail: valid v1 / valid v2 / broken, b.mtail: valid, remove a, remove b, rename b.mtail over a.mtail, add .h.mtail, add x.txt, mkdir d.mtail}, each followed by LoadAllPrograms", steps), gen),
 			}
 		},
 		Outside: []string{"histories longer than the bound; more than two program files", "SIGHUP delivery and the signal goroutine", "nested directories' contents", "which lines a program receives while a reload is in progress (C20)"}})
